@@ -43,7 +43,7 @@ template<class T, class K> struct Driver {
   std::vector<std::vector<long>> pts;              // pool, id = index + 1
   std::map<std::vector<long>, int> idof;
   double scale = 1;                                // Gaussian: coordinates are pool integers * scale
-  std::unique_ptr<DS> sk[NS]; bool rst[NS] = {false, false, false};
+  std::unique_ptr<DS> sk[NS + 1]; bool rst[NS + 1] = {false, false, false, false};   // slot NS: directed segments only
   std::vector<uint8_t> blob[NB]; bool blive[NB] = {false, false, false, false}; bool btop[NB] = {false, false, false, false};
 
   Driver(vt::Rng& g_, int serde, bool gs) : g(g_), serde_pct(serde), gauss(gs) {}
@@ -83,19 +83,86 @@ template<class T, class K> struct Driver {
     if (restored) e.b("restored", true);
   }
 
-  void mk(int i, uint32_t dim) {
+  void mk(int i, uint32_t dim, int fixed_k = 0) {
     static const int KS[] = {2, 2, 3, 4, 5, 8, 12, 16};
     int k = far ? KS[g.below(3)] : KS[g.below(8)];
     if (!far && (int)g.below(100) < bigk_pct) k = (int[]){24, 32, 48, 64}[g.below(4)];   // thorough tier   // far segments: small k, so that whole levels of mutually far points get compacted
+    if (fixed_k) k = fixed_k;
     sk[i].reset(new DS((uint16_t)k, dim, kernel)); rst[i] = false;
     Ev e("New"); e.i("id", i); post(e, *sk[i], false); e.emit();
   }
 
-  void segment(long seg, long events, int far_pct) {
+  // ---- C09 "restore, then continue" (directed, in every run): an image taken at the EMPTY state and at exactly ONE point,
+  // restored through bytes and stream; the restored sketch and the original then receive the same updates and merges with
+  // the SAME coin and shuffle seeds (so the two runs are deterministic and must stay identical), are queried, and are
+  // used as merge operands of two equal fresh sketches.
+  void reseed(uint64_t s) { *g_coin = vt::Rng(s); random_utils::override_seed(s); }
+  void ev_update(int i, int pid) { sk[i]->update(vec(pts[pid - 1])); Ev e("Update"); e.i("id", i).i("p", pid); post(e, *sk[i], rst[i]); e.emit(); }
+  void ev_merge(int dst, int src) {
+    bool threw = false; try { sk[dst]->merge(*sk[src]); } catch (const std::invalid_argument&) { threw = true; }
+    Ev e("Merge"); e.i("dst", dst).i("src", src).b("threw", threw); post(e, *sk[dst], rst[dst]); e.emit();
+  }
+  void ev_est(int i, const std::vector<long>& q) {
+    bool threw = false; double est = 0;
+    try { est = (double)sk[i]->get_estimate(vec(q)); } catch (const std::exception&) { threw = true; }
+    double scaled = est * (double)sk[i]->get_n() * (double)S;
+    Ev e("Est"); e.i("id", i).il("q", q).b("threw", threw).b("fin", std::isfinite(est)).b("nonneg", est >= 0)
+      .i("estS", std::isfinite(scaled) && std::fabs(scaled) < 2e9 ? llround(scaled) : -1).d("estD", std::isfinite(est) ? est : 0.0);
+    if (rst[i]) e.b("restored", true);
+    e.emit();
+  }
+  void ev_twin(int a, int b) { Ev("Twin").i("a", a).i("b", b).emit(); }
+  void restore_body(uint32_t dim) {
+    std::vector<int> ids; for (size_t j = 0; j < pts.size(); j++) if (pts[j].size() == dim) ids.push_back((int)j + 1);
+    static const int KS[] = {2, 3, 5, 8};
+    int combo = 0;
+    for (int state = 0; state < 2; state++) for (int path = 0; path < 2; path++) for (int kk = 0; kk < 2; kk++, combo++) {
+      const int k = KS[(combo + kk) % 4];
+      mk(0, dim, k);
+      if (state == 1) ev_update(0, ids[g.below(ids.size())]);
+      auto bytes0 = sk[0]->serialize();
+      std::ostringstream os; sk[0]->serialize(os); std::string st = os.str();
+      { Ev e("Ser"); e.i("src", 0).i("blob", 0).b("top_empty", false).i("hdr", 0).b("threw", false).i("bytes", (long long)bytes0.size())
+          .i("size", (long long)bytes0.size()).bytes("img", bytes0.data(), bytes0.size()).bytes("simg", st.data(), st.size())
+          .bytes("himg", bytes0.data(), bytes0.size()); e.emit(); }
+      long long consumed;
+      if (path == 0) { sk[1].reset(new DS(DS::deserialize(bytes0.data(), bytes0.size(), kernel))); consumed = (long long)bytes0.size(); }
+      else { std::istringstream is(st + std::string(16, '\x5a')); sk[1].reset(new DS(DS::deserialize(is, kernel))); consumed = (long long)is.tellg(); }
+      rst[1] = true;
+      { auto re = sk[1]->serialize();
+        Ev e("Deser"); e.i("blob", 0).b("blob_top_empty", false).i("dst", 1).str("path", path ? "stream" : "bytes").i("consumed", consumed).bytes("reimg", re.data(), re.size());
+        post(e, *sk[1], true); e.emit(); }
+      ev_twin(0, 1);
+      ev_est(0, pts[ids[0] - 1]); ev_est(1, pts[ids[0] - 1]);
+      // the same updates with the same coins on both, in two rounds (exact mode, then well into estimation mode)
+      for (int round = 0; round < 3; round++) {
+        const uint64_t s1 = g.next();
+        std::vector<int> ups; for (long u = round == 0 ? g.range(1, k > 2 ? k - 1 : 1) : g.range(k, 6 * k); u > 0; u--) ups.push_back(ids[g.below(ids.size())]);
+        reseed(s1); for (int pid : ups) ev_update(0, pid);
+        reseed(s1); for (int pid : ups) ev_update(1, pid);
+        ev_twin(0, 1);
+        for (int q = 0; q < 3; q++) { auto& pt = pts[ids[g.below(ids.size())] - 1]; ev_est(0, pt); ev_est(1, pt); }
+        if (round == 1) {   // both as merge TARGETS of the same sketch
+          mk(2, dim, k); for (long u = g.range(1, 3 * k); u > 0; u--) ev_update(2, ids[g.below(ids.size())]);
+          const uint64_t s2 = g.next();
+          reseed(s2); ev_merge(0, 2); reseed(s2); ev_merge(1, 2); ev_twin(0, 1);
+        }
+      }
+      // both as merge OPERANDS of two equal fresh sketches
+      { const uint64_t s3 = g.next(); std::vector<int> ups; for (long u = g.range(0, 3 * k); u > 0; u--) ups.push_back(ids[g.below(ids.size())]);
+        mk(2, dim, k); mk(3, dim, k);
+        reseed(s3); for (int pid : ups) ev_update(2, pid); ev_merge(2, 0);
+        reseed(s3); for (int pid : ups) ev_update(3, pid); ev_merge(3, 1);
+        ev_twin(2, 3); }
+      for (int i : {0, 1, 2, 3}) { Ev e("Obs"); e.i("id", i); post(e, *sk[i], rst[i]); e.emit(); }
+    }
+  }
+
+  void segment(long seg, long events, int far_pct, bool restore = false) {
     uint32_t dim = (uint32_t)g.range(1, 3);
     long W = g.range(2, 9);
     long P = g.range(3, 40);
-    far = !gauss && (int)g.below(100) < far_pct;
+    far = !restore && !gauss && (int)g.below(100) < far_pct;
     pts.clear(); idof.clear();
     const uint32_t alt = dim % 3 + 1;               // a few pool points (and sometimes a sketch) of another dimension
     for (long j = 0; j < P + 4; j++) {
@@ -115,8 +182,9 @@ template<class T, class K> struct Driver {
     b.key("pts"); b.s += "[";
     for (size_t j = 0; j < pts.size(); j++) { if (j) b.s += ","; b.s += "["; for (size_t d = 0; d < pts[j].size(); d++) { if (d) b.s += ","; b.s += std::to_string(pts[j][d]); } b.s += "]"; }
     b.s += "]"; b.emit();
-    for (int i = 0; i < NS; i++) { sk[i].reset(); rst[i] = false; }
+    for (int i = 0; i <= NS; i++) { sk[i].reset(); rst[i] = false; }
     for (int x = 0; x < NB; x++) blive[x] = false;
+    if (restore) { restore_body(dim); return; }
     mk(0, dim);
     for (long n = 0; n < events; n++) {
       int i = (int)g.below(NS);
@@ -241,6 +309,12 @@ int main(int argc, char** argv) {
   vt::Rng g(seed), coin(seed ^ 0x5bd1e995ULL);
   g_coin = &coin;
   random_utils::random_bit.source = coin_source;
+  if (vt::argl(argc, argv, "--restore", 0) > 0) {   // directed C09 segments, present in every run of the job
+    alarm(60);
+    { Driver<double, tent_kernel<double>> d(g, serde_pct, false); d.segment(-1, 0, 0, true); }
+    { Driver<float, tent_kernel<float>> d(g, serde_pct, false); d.segment(-2, 0, 0, true); }
+    { Driver<float, gaussian_kernel<float>> d(g, serde_pct, true); d.segment(-3, 0, 0, true); }
+  }
   for (long seg = 0; seg < segments; seg++) {
     alarm(30);    // watchdog: a sketch that loops forever is a finding (the recorder dies by SIGALRM), not a hung check
     int kind = (int)g.below(10);
